@@ -198,6 +198,8 @@ def run(kind, src, nm, nc, idx):
     linecache.cache[fname] = (len(src), None, src.splitlines(True), fname)
     ns = dict(ay=ay, ident=ident, S=S, SS=SS, M=M, MS=MS, C=C, tick=tick)
     exec(compile(src, fname, "exec"), ns)
+    if kind == "agen":
+        exec("async def _via():\n    async for _v in prog():\n        pass\n", ns)
     LINES[0] = with_lines(src)
     for bits in itertools.product([False, True], repeat=nc):
         def reset():
@@ -238,6 +240,19 @@ def run(kind, src, nm, nc, idx):
                 return
             check_contexts(st.frames[0].contexts, w, st.error, "suspension", LINES[0])
         drive(kind, ns["prog"](), obs)
+        if kind == "agen" and idx % 8 == 0:
+            # the same async generator REACHED THROUGH a coroutine that iterates it (async for): its frame is then found by
+            # walking the coroutine's await chain, and must carry the same contexts (every 8th program: the pass is a repeat)
+            reset()
+            def obs_via(o):
+                with warnings.catch_warnings(record=True) as w:
+                    warnings.simplefilter("always")
+                    st = stackscope.extract(o)
+                fr = [f for f in st.frames if f.funcname == "prog"]
+                if not fr:
+                    return
+                check_contexts(fr[0].contexts, w, st.error, "suspension, async generator reached through a coroutine", LINES[0])
+            drive("coro", ns["_via"](), obs_via)
 
 
 def shard(k):
